@@ -7,7 +7,7 @@ echo "== diffstat: $(git -C $wt diff --stat | tail -1)"
 echo "== tests with change: $(cd $wt && PYTHONPATH=$wt /venv/bin/python -m pytest -q -p no:cacheprovider 2>&1 | tail -1)"
 cd /verif
 for c in $checks; do
-  out=$(PYTHONPATH=$wt VERIF_EVIDENCE_DIR=/dev/shm/try_evidence timeout 3000 ./check "$c" --tier ${TIER:-quick} 2>&1); rc=$?
+  out=$(PYTHONPATH=$wt VERIF_EVIDENCE_DIR=/dev/shm/try_evidence VERIF_REPLAY_DIR=/dev/shm/try_replays timeout 3000 ./check "$c" --tier ${TIER:-quick} 2>&1); rc=$?
   echo "== $c rc=$rc; $(echo "$out" | tail -1 | cut -c1-200)"
   [ $rc -ne 0 ] && echo "$out" | grep -A2 '^VIOLATION\|HARNESS' | grep -v '^--' | cut -c1-400 | head -8
 done
